@@ -45,8 +45,8 @@ def intSpecs (uns : Bool) : Option IntSpecs := if uns then some ⟨[], 0, false,
 def tagInteger : Tag := ⟨0, 2⟩
 
 def run : Handler
-  | ["n_der", sg, v] => some <| match parseNative sg v with
-      | some w => toHex (NativeInteger_encode_der tagInteger w) | none => bad
+  | ["n_der", sg, v] => some <| match parseSg sg, parseNative sg v with
+      | some uns, some w => toHex (NativeInteger_encode_der uns tagInteger w) | _, _ => bad
   | ["w_der", h] => some <| match parseHex h with
       | some bs => toHex (INTEGER_encode_der tagInteger bs) | none => bad
   | ["n_dec", sg, h] => some <| match parseSg sg, parseHex h with
